@@ -161,4 +161,40 @@ example : lookup (metaFile (shardName (n "a_b") (n "c")))
     (runSeq [.create (n "a_b"), .create (n "a"), .ins (n "a_b") (n "c") 1, .ins (n "a") (n "b_c") 2]).files
     = some (shardName (n "a") (n "b_c"), []) := by decide
 
+/-! ### durability modes (immediate / batched / async) -/
+
+/-- `delete_shard` leaves nothing of the shard in the WAL — neither in the file nor in the writer's buffer
+    (batched mode) — in every state and every mode: a dropped KG cannot come back through a later sync or a
+    clean shutdown. (A `delete_shard` that skips the rewrite when the *file* shows no entry of the shard
+    breaks exactly this in batched mode.) -/
+theorem C17_deleted_shard_leaves_no_wal (st : State) (s : Name) :
+    (∀ e ∈ (deleteShard st s).wal, e.1 ≠ s) ∧ (deleteShard st s).walBuf = [] := by
+  refine ⟨?_, rfl⟩
+  intro e he
+  simp only [deleteShard, walRewrite, List.mem_filter, bne_iff_ne, ne_eq] at he
+  exact he.2
+
+/-- batched mode: insert, drop, re-create, clean shutdown, restart — the re-created KG is empty -/
+def batchedDrop : List Op := [.create (n "a"), .ins (n "a") (n "r") 1, .drop (n "a"), .create (n "a"), .restart]
+def runMode (mode : Dur) (ops : List Op) : State := lastState (initMode mode [ops]) (List.replicate (6 * ops.length + 1) 0)
+example : lookup (n "a") (runMode .batched batchedDrop).kgs = some [] := by decide
+
+/-- Known finding (batched mode, pre-existing): `remove_shard_entries` computes the survivors from the WAL
+    *file*, closes the writer and replaces the file — buffered entries of *other* shards are thrown away.
+    Dropping (or saving) KG `a` loses KG `b`'s acknowledged insert at the next clean restart. -/
+def C17_batched_isolation_statement : Prop :=
+  ∀ (ops : List Op), (runMode .batched (ops ++ [.restart])).bufDiscarded = false
+
+def batchedWitness : List Op := [.create (n "a"), .create (n "b"), .ins (n "a") (n "r") 1, .ins (n "b") (n "r") 2, .drop (n "a")]
+
+theorem C17_batched_isolation_refuted : ¬ C17_batched_isolation_statement := by
+  intro h
+  have := h batchedWitness
+  revert this; decide
+
+example : lookup (n "b") (runMode .batched batchedWitness).kgs = some [(n "r", [2])] := by decide
+example : lookup (n "b") (runMode .batched (batchedWitness ++ [.restart])).kgs = some [] := by decide
+/-- the same history in immediate mode keeps `b` -/
+example : lookup (n "b") (runMode .immediate (batchedWitness ++ [.restart])).kgs = some [(n "r", [2])] := by decide
+
 end ILV.Props.C17
